@@ -1,6 +1,7 @@
 (* Proofs about the primary finder on dotted names: for name_1.name_2. ... .name_k written without spaces,
-   get_primary_range at any offset of name_k is the whole chain, provided no name is a keyword and the chain is not
-   preceded by a dot.  (Names ending in the letters f-r-o-m are covered since rope commit b8cf919: the relative-import
+   get_primary_range at any offset of name_k is the whole chain, provided the first name is no keyword, no name before
+   a dot is the word from itself, and the chain is not preceded by a dot (names after a dot may be spelled like keywords:
+   rope commit 2b4039e, _follows_dot).  (Names ending in the letters f-r-o-m are covered since rope commit b8cf919: the relative-import
    test only fires on the whole word.)  For every text and every Unicode table in which identifier characters are not white space. *)
 From Coq Require Import List NArith ZArith Bool Lia.
 From RopeVerif.Lib Require Import Text.
@@ -103,7 +104,7 @@ Section P.
 
   (* _find_primary_without_dot_start at an offset inside a name returns the start of the name *)
   Lemma pwds_in_name s e o aux fuel : name_at s e -> s <= o < e ->
-    (iskeyword (sliceC code L s (o + 1)) = false \/ o + 1 < e) -> (3 <= fuel)%nat ->
+    (iskeyword (sliceC code L s (o + 1)) = false \/ o + 1 < e \/ (0 < s /\ chr (s - 1) cDOT)) -> (3 <= fuel)%nat ->
     finder u code L F fuel 1 o aux = Val s.
   Proof.
     intros Hn Ho Hkw Hf. pose proof Hn as (Hse & HeL & Hall & Hleft).
@@ -124,15 +125,24 @@ Section P.
     unfold char_in. rewrite ?(getC_chr o c ltac:(lia) Hc). cbn [bind]. rewrite S5. cbn [bind]. rewrite S6. cbn [bind].
     rewrite ?(is_id_true o ltac:(lia) Hid). cbn [bind].
     rewrite (word_start_in_name s e o Hn Ho). cbn [bind].
-    destruct Hkw as [Hkw|Hnext].
+    destruct Hkw as [Hkw|[Hnext|[Hs0 Hdot]]].
     - rewrite Hkw. cbn [negb orb]. destruct (Z.ltb_spec (o + 1) L); [|reflexivity].
       destruct (is_id_in u code L HL (o + 1) ltac:(lia)) as (b & Hb & _). rewrite Hb. reflexivity.
     - destruct (Z.ltb_spec (o + 1) L); [|lia].
       rewrite (is_id_true (o + 1) ltac:(lia) (Hall (o + 1) ltac:(lia))). cbn [bind]. rewrite orb_true_r. reflexivity.
+    - (* the name follows a dot: whatever the keyword test says, _follows_dot accepts *)
+      assert (Hnx : exists b, (if o + 1 <? L then is_id u code L (o + 1) else Val false) = Val b).
+      { destruct (Z.ltb_spec (o + 1) L); [|exists false; reflexivity].
+        destruct (is_id_in u code L HL (o + 1) ltac:(lia)) as (b & Hb & _). exists b. exact Hb. }
+      destruct Hnx as (b & Hb). rewrite Hb. cbn [bind].
+      destruct (negb (iskeyword (sliceC code L s (o + 1))) || b); [reflexivity|].
+      rewrite (lns_stop F (s - 1) cDOT ltac:(lia) Hdot (or_introl eq_refl) ltac:(lia)). cbn [bind].
+      destruct (Z.leb_spec 0 (s - 1)); [|lia].
+      rewrite (getC_chr (s - 1) cDOT ltac:(lia) Hdot). cbn [bind]. rewrite N.eqb_refl. reflexivity.
   Qed.
 
-  (* the four characters before the dot spell f-r-o-m only when the name is longer than that (the name itself is no keyword) *)
-  Lemma from_slice_long s' e' : name_at s' e' -> iskeyword (sliceC code L s' e') = false ->
+  (* the four characters before the dot spell f-r-o-m only when the name is longer than that (the name is not from itself) *)
+  Lemma from_slice_long s' e' : name_at s' e' -> text_eqb (sliceC code L s' e') s_from = false ->
     text_eqb (sliceC code L (e' - 4) e') s_from = true -> s' <= e' - 5.
   Proof.
     intros (Hse & HeL & Hall & Hleft) Hkw Hfrom. apply text_eqb_eq in Hfrom.
@@ -149,7 +159,7 @@ Section P.
       { unfold clampC. destruct (Z.ltb_spec (e' - 4) 0); [lia|]. destruct (Z.ltb_spec (e' - 4) 0); [lia|].
         destruct (Z.ltb_spec L (e' - 4)); lia. }
       destruct (Z.eq_dec s' (e' - 4)) as [->|Hne].
-      + rewrite Hfrom in Hkw. discriminate.
+      + rewrite Hfrom in Hkw. cbv in Hkw. discriminate.
       + assert (Hs1 : 0 <= s' - 1) by lia.
         destruct Hleft as [->|(c & Hc & Hcid)]; [lia|].
         unfold sliceC in Hfrom. rewrite Hce, Hca in Hfrom.
@@ -162,11 +172,12 @@ Section P.
 
   (* one step of the loop of _find_primary_start: from the start s of a name preceded by "name'." to the start of name' *)
   Lemma loop6_step s s' e' f : name_at s' e' -> e' + 1 = s -> chr e' cDOT -> s <= L ->
-    iskeyword (sliceC code L s' e') = false ->
+    (iskeyword (sliceC code L s' e') = false \/ (0 < s' /\ chr (s' - 1) cDOT)) ->
+    text_eqb (sliceC code L s' e') s_from = false ->
     (3 <= f)%nat ->
     finder u code L F (S f) 6 s 0 = finder u code L F f 6 s' 0.
   Proof.
-    intros Hn Hes Hdot HsL Hkw Hf. pose proof Hn as (Hse & HeL & Hall & Hleft).
+    intros Hn Hes Hdot HsL Hkw Hnf Hf. pose proof Hn as (Hse & HeL & Hall & Hleft).
     cbn [finder]. destruct (Z.ltb_spec 0 s); [|lia].
     replace (s - 1) with e' by lia.
     rewrite (lns_stop F e' cDOT ltac:(lia) Hdot (or_introl eq_refl) ltac:(lia)). cbn [bind].
@@ -179,11 +190,11 @@ Section P.
                        then (if e' - 1 <? 4 then Val true else do b <- is_id u code L (e' - 1 - 4); Val (negb b))
                        else Val false) = Val false).
     { destruct (text_eqb (sliceC code L (e' - 4) e') s_from) eqn:Efrom; [|reflexivity].
-      pose proof (from_slice_long s' e' Hn Hkw Efrom) as Hlong.
+      pose proof (from_slice_long s' e' Hn Hnf Efrom) as Hlong.
       destruct (Z.ltb_spec (e' - 1) 4); [lia|].
       rewrite (is_id_true (e' - 1 - 4) ltac:(lia) (Hall (e' - 1 - 4) ltac:(lia))). reflexivity. }
     rewrite Hisfrom. cbn [bind].
-    rewrite (pwds_in_name s' e' (e' - 1) 0 f Hn ltac:(lia)); [|left; replace (e' - 1 + 1) with e' by lia; exact Hkw|exact Hf].
+    rewrite (pwds_in_name s' e' (e' - 1) 0 f Hn ltac:(lia)); [|replace (e' - 1 + 1) with e' by lia; destruct Hkw as [Hkw|Hkw]; [left; exact Hkw|right; right; exact Hkw]|exact Hf].
     cbn [bind]. rewrite (is_id_true s' ltac:(lia) (Hall s' ltac:(lia))). cbn [bind]. reflexivity.
   Qed.
 
@@ -202,28 +213,40 @@ Section P.
     split; [apply (lns_stop F (a - 1) c ltac:(lia) Hc Hs ltac:(lia))|]. split; [apply getC_chr; [lia|exact Hc]|exact Hne].
   Qed.
 
+  (* a name that has more names to its left follows a dot *)
+  Lemma chain_follows_dot s a n : chain_from s a (S n) -> 0 < s /\ chr (s - 1) cDOT.
+  Proof.
+    intros H. inversion H as [|s0 s' e' a0 n0 (Hse & _) Hes Hdot _ _ _ _]; subst.
+    replace (e' + 1 - 1) with e' by lia. split; [lia|exact Hdot].
+  Qed.
+
   Lemma chain_loop s a n : chain_from s a n -> forall fuel, (4 * n + 4 <= fuel)%nat ->
     finder u code L F fuel 6 s 0 = Val a.
   Proof.
-    induction 1 as [s Hs Hst|s s' e' a n Hn Hes Hdot HsL Hkw Hch IH]; intros fuel Hf.
+    induction 1 as [s Hs Hst|s s' e' a n Hn Hes Hdot HsL Hkw Hnf Hch IH]; intros fuel Hf.
     - destruct fuel as [|f]; [lia|]. apply loop6_end; assumption.
     - destruct fuel as [|f]; [lia|].
-      rewrite (loop6_step s s' e' f Hn Hes Hdot HsL Hkw ltac:(lia)). apply IH. lia.
+      assert (Hkw' : iskeyword (sliceC code L s' e') = false \/ (0 < s' /\ chr (s' - 1) cDOT)).
+      { destruct n as [|m]; [left; apply Hkw; reflexivity|right; eapply chain_follows_dot; exact Hch]. }
+      rewrite (loop6_step s s' e' f Hn Hes Hdot HsL Hkw' Hnf ltac:(lia)). apply IH. lia.
   Qed.
 
   Lemma chain_size s a n : chain_from s a n -> 0 <= a /\ a + 2 * Z.of_nat n <= s.
   Proof.
-    induction 1 as [s Hs Hst|s s' e' a n (Hse & _) Hes _ _ _ _ IH]; [lia|]. lia.
+    induction 1 as [s Hs Hst|s s' e' a n (Hse & _) Hes _ _ _ _ _ IH]; [lia|]. lia.
   Qed.
 
   (* the theorem: at any offset o of the last name [s, e) of a chain starting at a, the primary is [a, e) *)
   Theorem primary_chain s e o a n :
     name_at s e -> (e = L \/ idc e false) -> s <= o < e ->
-    (iskeyword (sliceC code L s (o + 1)) = false \/ o + 1 < e) ->
+    (n = O -> iskeyword (sliceC code L s (o + 1)) = false \/ o + 1 < e) ->
     chain_from s a n -> (4 * n + 6 <= F)%nat ->
     get_primary_range u code L F o = Val (a, e).
   Proof.
-    intros Hn Hright Ho Hkw Hch HFn. pose proof Hn as (Hse & HeL & Hall & Hleft).
+    intros Hn Hright Ho Hkw0 Hch HFn. pose proof Hn as (Hse & HeL & Hall & Hleft).
+    assert (Hkw : iskeyword (sliceC code L s (o + 1)) = false \/ o + 1 < e \/ (0 < s /\ chr (s - 1) cDOT)).
+    { destruct n as [|m]; [destruct (Hkw0 eq_refl) as [H|H]; [left; exact H|right; left; exact H]|].
+      right; right. eapply chain_follows_dot; exact Hch. }
     unfold get_primary_range, primary_start.
     assert (Hid : idc o true) by (apply Hall; lia).
     destruct (idc_chr o Hid) as (c & Hc & Hcid).
@@ -252,7 +275,7 @@ End P.
 Theorem primary_chain_entry u code s e o a n :
   (forall c, is_id_char u c = true -> isspace u c = false) ->
   name_at u code (lenZ code) s e -> (e = lenZ code \/ idc u code e false) -> s <= o < e ->
-  (iskeyword (sliceC code (lenZ code) s (o + 1)) = false \/ o + 1 < e) ->
+  (n = O -> iskeyword (sliceC code (lenZ code) s (o + 1)) = false \/ o + 1 < e) ->
   chain_from u code (lenZ code) (fuel_for code) s a n ->
   w_primary_range u code o = Val (a, e).
 Proof.
@@ -300,8 +323,14 @@ Proof.
   apply (primary_chain_entry u code 6 8 7 0 2 ascii_table_ok N3).
   - left; reflexivity.
   - lia.
-  - left; reflexivity.
-  - eapply chain_more with (s' := 3) (e' := 5); [exact N2|reflexivity|reflexivity|cbn; lia|reflexivity|].
-    eapply chain_more with (s' := 0) (e' := 2); [exact N1|reflexivity|reflexivity|cbn; lia|reflexivity|].
+  - intros H; discriminate.
+  - eapply chain_more with (s' := 3) (e' := 5); [exact N2|reflexivity|reflexivity|cbn; lia|intros H; discriminate|reflexivity|].
+    eapply chain_more with (s' := 0) (e' := 2); [exact N1|reflexivity|reflexivity|cbn; lia|reflexivity|reflexivity|].
     apply chain_one; [lia|left; reflexivity].
 Qed.
+
+(* names after a dot may be spelled like keywords (rope 2b4039e):  s.is.x  at the x, and at the last letter of is *)
+Example primary_keyword_attribute_example :
+  w_primary_range (table_of [] [] []) [115; 46; 105; 115; 46; 120]%N 5 = Val (0, 6)
+  /\ w_primary_range (table_of [] [] []) [115; 46; 105; 115; 46; 120]%N 3 = Val (0, 4).
+Proof. vm_compute. split; reflexivity. Qed.
